@@ -65,6 +65,7 @@ class Dataset(AbstractDataset, dict, OpMixin, GetSetDelAttrMixin):
     b: ('myaxis',)
     """
     _constructor = DimArray
+    __array_ufunc__ = None # a NumPy scalar or array on the left of an operator defers to the Dataset (as it does to a DimArray)
 
     def __init__(self, *args, **kwargs):
         """ initialize a dataset from a set of objects of varying dimensions
